@@ -25,3 +25,5 @@ pub mod c15;
 pub mod c16;
 
 pub mod gen;
+#[cfg(kani)]
+pub mod probe;
